@@ -104,15 +104,16 @@ def classify(path, folder):
 
 # ---------------------------------------------------------------------------------------------- one driver run
 class Run:
-    def __init__(self, name, stype, adversary, straced, reqs):
+    def __init__(self, name, stype, adversary, straced, reqs, hook="true", watch_hook_group=False):
         self.name, self.stype, self.adversary, self.straced, self.reqs = name, stype, adversary, straced, reqs
+        self.hook, self.watch_hook_group = hook, watch_hook_group
         self.results = None
         self.error = None
         self.events = None
 
     def conf(self):
         return {"auth": {"type": "none"}, "rights": {"type": "owner_only"},
-                "storage": {"type": self.stype, "hook": "true",
+                "storage": {"type": self.stype, "hook": self.hook.replace("@FOLDER@", getattr(self, "folder", "@FOLDER@")),
                             "predefined_collections": json.dumps(x_c10.PREDEFINED)}}
 
     def execute(self, base, timeout):
@@ -120,7 +121,8 @@ class Run:
         self.folder = os.path.join(d, "store")
         os.makedirs(self.folder)
         spec, outp, tr = os.path.join(d, "spec.json"), os.path.join(d, "out.json"), os.path.join(d, "trace.txt")
-        json.dump(dict(folder=self.folder, conf=self.conf(), adversary=self.adversary, requests=self.reqs), open(spec, "w"))
+        json.dump(dict(folder=self.folder, conf=self.conf(), adversary=self.adversary, requests=self.reqs,
+                       watch_hook_group=self.watch_hook_group), open(spec, "w"))
         argv = [core.PY, os.path.join(core.VERIF, "vlib/drivers/c10_driver.py"), spec, outp]
         if self.straced:
             rc, out = trace.run_traced(argv, tr, calls=CALLS, timeout=timeout)
@@ -172,6 +174,9 @@ def mon_files(files):
             continue
         p = f["path"]
         kind = classify("/F" + p, "/F")
+        if f["ev"] == "hook-group-alive":
+            return ("processes of the storage hook's group (pgid %s) are still alive when the exclusive lock is released: %s"
+                    % (f.get("pgid"), f.get("processes"))), f
         if f["ev"] == "exec":
             if f["held"] != "w":
                 return "hook process started while the thread holds %r" % f["held"], f
@@ -223,10 +228,17 @@ def mon_syscalls(run, cwd):
         if not started:
             continue
         if e.pid not in threads:
+            # every other process is a descendant of the storage hook
+            h = (held.get(run.main_tid) or (None, None))[0] if use_flock else mheld.get(run.main_tid)
             if e.call == "execve" and e.ret == 0:
-                h = (held.get(run.main_tid) or (None, None))[0] if use_flock else mheld.get(run.main_tid)
                 if h != "w":
                     viol.append((req, "hook execve while the serving thread holds %r" % h, e.raw[:300]))
+            elif (e.call in PATH_CALLS or e.call in FD_CALLS) and h != "w":
+                for p in call_paths(e, folder):
+                    if p == folder or p.startswith(folder + "/"):
+                        checked += 1
+                        viol.append((req, "a process started by the storage hook (pid %d) does %s on %s after the exclusive "
+                                     "lock was released (serving thread holds %r)" % (e.pid, e.call, p[len(folder):], h), e.raw[:300]))
             continue
         if e.call == "flock":
             m = _fd0.match(e.args)
@@ -324,10 +336,23 @@ def run(ctx):
     for (name, stype, adv, straced, count, ro), seed in zip(plan, seeds):
         r2 = _random.Random(seed)
         reqs = [dict(x) for x in setup] + x_c10.first_login_block(name.replace("_", "")) + x_c10.gen_requests(r2, count, read_only=ro)
+        reqs += x_c10.hostile_block()
         if adv:
             # every read request kind at least once: appended deterministic block
             reqs += fixed_block()
         runs.append(Run(name, stype, adv, straced, reqs))
+    # a hook that leaves a background job behind (like "git push &"): lock.py must have killed the hook's process
+    # group before the exclusive lock is released, so nothing of it may touch the folder afterwards
+    L = "u:"
+    bg_reqs = [dict(method="MKCALENDAR", path="/u/bg/", login=L, kind="setup"),
+               dict(method="PUT", path="/u/bg/b1.ics", login=L, data=x_c10.ev("b1", 4), kind="gen"),
+               dict(method="_SLEEP", path="", seconds=0.8, kind="sleep"),
+               dict(method="PROPPATCH", path="/u/bg/", login=L, data=x_c10.PROPPATCH_OK % 7, kind="gen"),
+               dict(method="DELETE", path="/u/bg/b1.ics", login=L, kind="gen"),
+               dict(method="GET", path="/u/bg/", login=L, kind="gen"),
+               dict(method="_SLEEP", path="", seconds=0.9, kind="sleep")]
+    runs.append(Run("hookbg", "multifilesystem", False, True, bg_reqs, watch_hook_group=True,
+                    hook="touch @FOLDER@/hook-ran; (sleep 0.6; touch @FOLDER@/collection-root/.late-job) &"))
     base = tempfile.mkdtemp(prefix="rv-c10-")
     try:
         ths = [threading.Thread(target=r.execute, args=(base, ctx.n(600, 2400))) for r in runs]
@@ -370,8 +395,8 @@ def evaluate(ctx, runs, base, model_ok, failing_methods):
             continue
         ctx.obligation("driver:%s ran" % run.name, True)
         for i, (rq, res) in enumerate(zip(run.reqs, run.results)):
-            if rq["method"] == "_WIPECACHE":
-                ctx.count("cache-wiped")
+            if rq["method"].startswith("_"):
+                ctx.count("pseudo:" + rq["method"])
                 continue
             api = res["api"]
             locked = any(e[0] == "Acquire" for e in api)
@@ -410,7 +435,7 @@ def evaluate(ctx, runs, base, model_ok, failing_methods):
             for k, s in ops.items():
                 optable.setdefault(k, set()).update(s)
             if viol and "syscall" not in first:
-                rqi, text, raw = viol[0]
+                rqi, text, raw = next((v for v in viol if "after the exclusive" in v[1]), viol[0])
                 first["syscall"] = ("system-call level (%s): %s" % (run.name, text),
                                     replay_of(run, rqi, syscall=raw, api=run.results[rqi]["api"] if 0 <= rqi < len(run.results) else None))
             ctx.count("syscall-violations:%s" % run.name, len(viol))
@@ -479,25 +504,58 @@ def replay_of(run, i, **kw):
     """A self-contained replay: the request sequence up to and including request i of that run."""
     upto = run.reqs[:i + 1] if i >= 0 else run.reqs
     # keep the set-up and the failing request; drop the unrelated middle when the failing request does not depend on it
-    return dict(storage_type=run.stype, adversary=run.adversary, conf=run.conf(), failing_request=run.reqs[i] if i >= 0 else None,
+    return dict(storage_type=run.stype, adversary=run.adversary, conf=run.conf(), hook=run.hook, watch_hook_group=run.watch_hook_group, failing_request=run.reqs[i] if i >= 0 else None,
                 requests=upto, note="./check C10 --replay <this file> re-runs the sequence through vlib/drivers/c10_driver.py "
                 "and prints the monitors' verdict for the last request", **kw)
 
 
 def shrink(rp, base):
-    """Try the set-up followed by the failing request alone; keep the shorter sequence when the monitors still fire."""
-    try:
-        reqs = [r for r in rp["requests"][:-1] if r.get("kind") == "setup"] + [rp["requests"][-1]]
-        if len(reqs) >= len(rp["requests"]):
-            return rp
-        run = Run("shrink", rp["storage_type"], rp["adversary"], False, reqs)
+    """Shorten the request sequence: set-up + failing request alone, else a bounded delta-debugging pass over the
+    requests in between; a candidate is kept when the monitors still fire on the last request."""
+    counter = [0]
+
+    def fails(reqs):
+        counter[0] += 1
+        run = Run("shrink%d" % counter[0], rp["storage_type"], rp["adversary"], False, reqs, hook=rp.get("hook", "true"),
+                  watch_hook_group=rp.get("watch_hook_group", False))
         run.execute(base, 300)
         if run.error:
-            return rp
+            return None
         res = run.results[-1]
         if mon_api(res["api"]) or mon_files(res["files"]):
-            fv = mon_files(res["files"])
-            return dict(rp, requests=reqs, api=res["api"], file_event=fv[1] if fv else None, shrunk_from=len(rp["requests"]))
+            return res
+        return None
+    try:
+        allr = rp["requests"]
+        setup = [r for r in allr[:-1] if r.get("kind") == "setup"]
+        middle = [r for r in allr[:-1] if r.get("kind") != "setup"]
+        failing = allr[-1]
+        best, best_res = None, None
+        res = fails(setup + [failing])
+        if res:
+            best, best_res = [], res
+        else:
+            n = 2
+            while len(middle) > 1 and counter[0] < 14:
+                size = max(1, len(middle) // n)
+                reduced = False
+                for k in range(0, len(middle), size):
+                    cand = middle[:k] + middle[k + size:]
+                    res = fails(setup + cand + [failing])
+                    if res:
+                        middle, best, best_res, reduced = cand, cand, res, True
+                        n = max(2, n - 1)
+                        break
+                    if counter[0] >= 14:
+                        break
+                if not reduced:
+                    if size == 1:
+                        break
+                    n = min(len(middle), n * 2)
+        if best is not None:
+            fv = mon_files(best_res["files"])
+            return dict(rp, requests=setup + best + [failing], api=best_res["api"], file_event=fv[1] if fv else None,
+                        shrunk_from=len(allr))
     except Exception:
         pass
     return rp
@@ -511,13 +569,15 @@ def replay(ctx, path):
         return 0
     base = tempfile.mkdtemp(prefix="rv-c10-replay-")
     try:
-        run = Run("replay", rp["storage_type"], rp["adversary"], False, rp["requests"])
+        run = Run("replay", rp["storage_type"], rp["adversary"], False, rp["requests"], hook=rp.get("hook", "true"),
+                  watch_hook_group=rp.get("watch_hook_group", False))
         run.execute(base, 600)
         if run.error:
             print(run.error)
             return 2
-        res = run.results[-1]
-        print("request:", json.dumps(rp["requests"][-1])[:400])
+        last = max(i for i, r in enumerate(rp["requests"]) if not r["method"].startswith("_"))
+        res = run.results[last]
+        print("request:", json.dumps(rp["requests"][last])[:400])
         print("status:", res["status"])
         print("api stream:", res["api"])
         v, fv = mon_api(res["api"]), mon_files(res["files"])
